@@ -324,7 +324,7 @@ impl Prop for C05 {
 
     fn profiles(tier: Tier) -> Vec<Profile> {
         match tier {
-            Tier::Quick => vec![prof("exhaustive", 48), prof("random_const", 12_000), prof("random_wild", 6_000), prof("twin", 2_000)],
+            Tier::Quick => vec![prof("exhaustive", 96), prof("random_const", 40_000), prof("random_wild", 20_000), prof("twin", 4_000)],
             Tier::Thorough => vec![prof("exhaustive_deep", 400), prof("random_const", 600_000), prof("random_wild", 300_000), prof("twin", 60_000)],
         }
     }
